@@ -91,9 +91,10 @@ func (vm *Type) Run(retResult bool) (value.Type, error) {
 		case bytecode.ADDTMP, bytecode.SUBTMP, bytecode.MULTMP, bytecode.DIVTMP:
 			src0 := vm.fetch(instr.Src0(), instr.Src0Addr(), m, ds)
 
+			lhs := tmp // the temp register is the left operand: the error report shows it too
 			tmp, err = tmp.Arith(opCode-bytecode.ADDTMP+bytecode.ADD, src0)
 			if err != nil {
-				return vm.dumpStack(ctxp, ip, err, src0)
+				return vm.dumpStack(ctxp, ip, err, lhs, src0)
 			}
 
 		case bytecode.INC:
@@ -133,9 +134,10 @@ func (vm *Type) Run(retResult bool) (value.Type, error) {
 		case bytecode.MODTMP:
 			src0 := vm.fetch(instr.Src0(), instr.Src0Addr(), m, ds)
 
+			lhs := tmp
 			tmp, err = tmp.Mod(src0)
 			if err != nil {
-				return vm.dumpStack(ctxp, ip, err, src0)
+				return vm.dumpStack(ctxp, ip, err, lhs, src0)
 			}
 
 		case bytecode.AND, bytecode.OR:
@@ -152,9 +154,10 @@ func (vm *Type) Run(retResult bool) (value.Type, error) {
 		case bytecode.ANDTMP, bytecode.ORTMP:
 			src0 := vm.fetch(instr.Src0(), instr.Src0Addr(), m, ds)
 
+			lhs := tmp
 			tmp, err = tmp.Logic(opCode-bytecode.ANDTMP+bytecode.AND, src0)
 			if err != nil {
-				return vm.dumpStack(ctxp, ip, err, src0)
+				return vm.dumpStack(ctxp, ip, err, lhs, src0)
 			}
 
 		case bytecode.LSH, bytecode.RSH:
@@ -171,9 +174,10 @@ func (vm *Type) Run(retResult bool) (value.Type, error) {
 		case bytecode.LSHTMP, bytecode.RSHTMP:
 			src0 := vm.fetch(instr.Src0(), instr.Src0Addr(), m, ds)
 
+			lhs := tmp
 			tmp, err = tmp.Shift(opCode-bytecode.LSHTMP+bytecode.LSH, src0)
 			if err != nil {
-				return vm.dumpStack(ctxp, ip, err, src0)
+				return vm.dumpStack(ctxp, ip, err, lhs, src0)
 			}
 
 		case bytecode.NOT:
@@ -186,9 +190,10 @@ func (vm *Type) Run(retResult bool) (value.Type, error) {
 			m.Push(val)
 
 		case bytecode.NOTTMP:
+			lhs := tmp
 			tmp, err = tmp.Not()
 			if err != nil {
-				return vm.dumpStack(ctxp, ip, err)
+				return vm.dumpStack(ctxp, ip, err, lhs)
 			}
 
 		case bytecode.FLIP:
@@ -201,9 +206,10 @@ func (vm *Type) Run(retResult bool) (value.Type, error) {
 			m.Push(val)
 
 		case bytecode.FLIPTMP:
+			lhs := tmp
 			tmp, err = tmp.Flip()
 			if err != nil {
-				return vm.dumpStack(ctxp, ip, err)
+				return vm.dumpStack(ctxp, ip, err, lhs)
 			}
 
 		case bytecode.LT, bytecode.GT, bytecode.LE, bytecode.GE:
@@ -220,9 +226,10 @@ func (vm *Type) Run(retResult bool) (value.Type, error) {
 		case bytecode.LTTMP, bytecode.GTTMP, bytecode.LETMP, bytecode.GETMP:
 			src0 := vm.fetch(instr.Src0(), instr.Src0Addr(), m, ds)
 
+			lhs := tmp
 			tmp, err = tmp.Relational(opCode-bytecode.LTTMP+bytecode.LT, src0)
 			if err != nil {
-				return vm.dumpStack(ctxp, ip, err, src0)
+				return vm.dumpStack(ctxp, ip, err, lhs, src0)
 			}
 
 		case bytecode.EQ, bytecode.NE:
@@ -239,9 +246,10 @@ func (vm *Type) Run(retResult bool) (value.Type, error) {
 		case bytecode.EQTMP, bytecode.NETMP:
 			src0 := vm.fetch(instr.Src0(), instr.Src0Addr(), m, ds)
 
+			lhs := tmp
 			tmp, err = tmp.Eq(opCode-bytecode.EQTMP+bytecode.EQ, src0)
 			if err != nil {
-				return vm.dumpStack(ctxp, ip, err, src0)
+				return vm.dumpStack(ctxp, ip, err, lhs, src0)
 			}
 
 		case bytecode.LEN:
@@ -255,9 +263,10 @@ func (vm *Type) Run(retResult bool) (value.Type, error) {
 			m.Push(val)
 
 		case bytecode.LENTMP:
+			lhs := tmp
 			tmp, err = tmp.Len()
 			if err != nil {
-				return vm.dumpStack(ctxp, ip, err)
+				return vm.dumpStack(ctxp, ip, err, lhs)
 			}
 
 		case bytecode.IX1:
